@@ -217,6 +217,8 @@ def run_case(case):
 def _run_case(case):
     from mc import env
     env.tidalpy()
+    from mc.refmodels.poolwatch import numba_ready
+    numba_ready()
     viol = []
     kind = case['kind']
     if kind == 'discover':
@@ -271,7 +273,10 @@ def _run_case(case):
             f = getattr(ef, f'eccentricity_funcs_l{l}_trunc{N}', None)
             if f is None:
                 continue                      # reported by discovery
-            tab = getattr(f, 'py_func', f)(Series.var(ORDER))
+            try:
+                tab = getattr(f, 'py_func', f)(Series.var(ORDER))
+            except Exception:
+                continue                      # reported by the 'table' case of (l, N) as C08/table/exception/...
             exact[l] = {(int(p), int(q)): as_series(tab[p][q], ORDER) for p in tab for q in tab[p]}
         try:
             for e in es:
